@@ -1,42 +1,10 @@
-"""Per-property configuration of ./check."""
+"""Per-property configuration of ./check: one JSON file per property under tools/props/."""
+import glob
+import json
+import os
 
-TB_COMMON = [
-    "Lean 4.33 kernel; axioms limited to propext, Classical.choice, Quot.sound (audited per theorem with #print axioms)",
-    "hand-written Lean model (lean/RosuModel/Model/*.lean), tied to /repo by the correspondence run: same case lines through the harness (real API, in-process) and the compiled model driver, outputs diffed",
-    "harness (harness/src), canonicalisation and diff (tools/checklib.py); rustc/LLVM/std; rosu-map and rosu-mods are exercised, not modelled",
-    "strain skills, evaluators, curve/slider maths and pp formulas are NOT modelled: they are an abstract state S with process : S -> Nat -> S",
-]
+_DIR = os.path.join(os.path.dirname(os.path.abspath(__file__)), "props")
 
-GRAD_RULE = ("corner maps for every mode (0-5 objects, every object kind first), structured-random small maps (native and converted, "
-             "random mods/clock rate/attribute overrides), truncated resource maps; non-trivial = at least one unit (and >= 2 ops for C15); "
-             "distinct = distinct (mode, object descriptor, settings/op sequence) hashes")
-
-PROPS = {
-    "C02": {
-        "lean_files": ["RosuModel/Props/C02.lean"],
-        "level": "proof",
-        "trusted_base": TB_COMMON,
-        "rule": GRAD_RULE,
-        "correspondence": "GRAD lines (len/next walk: integer attribute fields + skill-signature class per value) vs Model/Gradual.lean",
-        "partial": ["taiko: theorem holds under 'first two objects are hits, >= 3 objects' (and 'last object is a hit' for the final-value clause); the code violates the full statement (known findings)",
-                    "mania: theorem needs incGrad = incOne; the code recomputes hold-note combo from scaled times (known finding)"],
-        "assumptions": ["Difficulty handed to the gradual constructor carries no passed_objects"],
-    },
-    "C14": {
-        "lean_files": ["RosuModel/Props/C14.lean"],
-        "level": "proof",
-        "trusted_base": TB_COMMON,
-        "rule": GRAD_RULE,
-        "correspondence": "ONE lines (integer attribute fields for every passed_objects n in 0..total+1 and u32::MAX) vs Model/Gradual.lean one-shot functions",
-        "partial": [],
-    },
-    "C15": {
-        "lean_files": ["RosuModel/Props/C15.lean"],
-        "level": "proof",
-        "trusted_base": TB_COMMON,
-        "rule": GRAD_RULE + "; op sequences: exhaustive length 2-3 over {next, nth 0,1,2,3,100,usize::MAX, len} on maps with <= 4 units, random up to length 12 (quick) / 30 (thorough)",
-        "correspondence": "GRAD lines (arbitrary next/nth/len sequences) vs Model/Gradual.lean machines",
-        "partial": ["Iterator::nth contract is false of the code for n >= remaining >= 1 (theorem osu_nth_contract_fails; known finding); proved: nth processes min(n+1, remaining)",
-                    "taiko: protocol theorems hold under 'first two objects are hits, >= 3 objects' (known finding)"],
-    },
-}
+PROPS = {}
+for _p in sorted(glob.glob(os.path.join(_DIR, "C*.json"))):
+    PROPS[os.path.basename(_p)[:-5]] = json.load(open(_p))
